@@ -289,3 +289,185 @@ func c16Stranger(kinds []int) {
 
 func harnessC16StrangerClose() { c16Stranger([]int{1, 2, 3, 4}) }
 func harnessC16StrangerData()  { c16Stranger([]int{0}) }
+
+// ---------- C16 for UDP associations and ICMP sessions relayed by this transit ----------
+
+// proto 1: UDP, 2: ICMP. kinds: 0 datagram/echo, 1 close, 3 open refused, 4 open acknowledged
+func c16DeliverDgram(a *Agent, proto, kind int, from identity.AgentID, id uint64, payload []byte) {
+	if proto == 1 {
+		switch kind {
+		case 0:
+			a.handleUDPDatagram(from, &protocol.Frame{Type: protocol.FrameUDPDatagram, StreamID: id, Payload: payload})
+		case 1:
+			a.handleUDPClose(from, &protocol.Frame{Type: protocol.FrameUDPClose, StreamID: id, Payload: payload})
+		case 3:
+			a.handleUDPOpenErr(from, &protocol.Frame{Type: protocol.FrameUDPOpenErr, StreamID: id, Payload: payload})
+		case 4:
+			a.handleUDPOpenAck(from, &protocol.Frame{Type: protocol.FrameUDPOpenAck, StreamID: id, Payload: payload})
+		}
+		return
+	}
+	switch kind {
+	case 0:
+		a.handleICMPEcho(from, &protocol.Frame{Type: protocol.FrameICMPEcho, StreamID: id, Payload: payload})
+	case 1:
+		a.handleICMPClose(from, &protocol.Frame{Type: protocol.FrameICMPClose, StreamID: id, Payload: payload})
+	case 3:
+		a.handleICMPOpenErr(from, &protocol.Frame{Type: protocol.FrameICMPOpenErr, StreamID: id, Payload: payload})
+	case 4:
+		a.handleICMPOpenAck(from, &protocol.Frame{Type: protocol.FrameICMPOpenAck, StreamID: id, Payload: payload})
+	}
+}
+
+func c16DgramTable(a *Agent, proto int) *relayTable {
+	if proto == 1 {
+		return a.udpRelay
+	}
+	return a.icmpRelay
+}
+
+var c16DgramKinds = []int{0, 1, 3, 4}
+
+func c16DgramTransit(proto int, tag string) {
+	a := c16Agent()
+	t := c16DgramTable(a, proto)
+	e1, e2 := c16Tunnels(false)
+	t.Insert(e1)
+	t.Insert(e2)
+	c16Log = nil
+	kind := c16DgramKinds[verif_choose(len(c16DgramKinds))]
+	fromUp := verif_nondet_bool()
+	if kind == 3 || kind == 4 {
+		fromUp = false
+	}
+	payload := verif_nondet_bytes(2)
+	if fromUp {
+		c16DeliverDgram(a, proto, kind, e1.UpstreamPeer, e1.UpstreamID, payload)
+	} else {
+		c16DeliverDgram(a, proto, kind, e1.DownstreamPeer, e1.DownstreamID, payload)
+	}
+	verif_reach(tag + "/transit")
+	verif_assert(len(c16Log) == 1, tag+"/frame-forwarded-exactly-once")
+	if len(c16Log) == 1 {
+		s := c16Log[0]
+		if fromUp {
+			verif_assert(s.to == e1.DownstreamPeer && s.f.StreamID == e1.DownstreamID, tag+"/forwarded-on-own-downstream-leg")
+		} else {
+			verif_assert(s.to == e1.UpstreamPeer && s.f.StreamID == e1.UpstreamID, tag+"/forwarded-on-own-upstream-leg")
+		}
+		verif_assert(len(s.f.Payload) == 2 && s.f.Payload[0] == payload[0] && s.f.Payload[1] == payload[1], tag+"/payload-unchanged")
+	}
+	u2, _ := t.LookupBoth(e2.UpstreamID)
+	verif_assert(u2 == e2 && t.LookupDownstream(e2.DownstreamID) == e2, tag+"/other-tunnel-untouched")
+	u1, _ := t.LookupBoth(e1.UpstreamID)
+	if kind == 1 || kind == 3 {
+		verif_assert(u1 != e1 && t.LookupDownstream(e1.DownstreamID) != e1, tag+"/closed-tunnel-removed")
+	} else {
+		verif_assert(u1 == e1 && t.LookupDownstream(e1.DownstreamID) == e1, tag+"/live-tunnel-removed")
+	}
+	// the tables of the other tunnel kinds are not touched
+	verif_assert(len(a.tcpRelay.byUpstream) == 0 && len(a.tcpRelay.byDownstream) == 0, tag+"/other-relay-table-touched")
+}
+
+func c16DgramStranger(proto int, tag string) {
+	a := c16Agent()
+	t := c16DgramTable(a, proto)
+	e1, e2 := c16Tunnels(false)
+	t.Insert(e1)
+	t.Insert(e2)
+	p := c16Peer(verif_choose(6))
+	id := verif_nondet_u64()
+	for _, e := range []*relayEntry{e1, e2} {
+		verif_assume(!(p == e.UpstreamPeer && id == e.UpstreamID))
+		verif_assume(!(p == e.DownstreamPeer && id == e.DownstreamID))
+	}
+	c16Log = nil
+	kind := c16DgramKinds[verif_choose(len(c16DgramKinds))]
+	c16DeliverDgram(a, proto, kind, p, id, verif_nondet_bytes(2))
+	verif_reach(tag + "/stranger")
+	for _, s := range c16Log {
+		verif_assert(s.to == p, tag+"/frame-of-an-unrelated-peer-forwarded-into-a-tunnel")
+	}
+	for _, e := range []*relayEntry{e1, e2} {
+		u, _ := t.LookupBoth(e.UpstreamID)
+		verif_assert(u == e && t.LookupDownstream(e.DownstreamID) == e, tag+"/frame-of-an-unrelated-peer-tears-a-tunnel-down")
+	}
+}
+
+func harnessC16TransitUDP()   { c16DgramTransit(1, "C16/udp") }
+func harnessC16TransitICMP()  { c16DgramTransit(2, "C16/icmp") }
+func harnessC16StrangerUDP()  { c16DgramStranger(1, "C16/udp") }
+func harnessC16StrangerICMP() { c16DgramStranger(2, "C16/icmp") }
+
+// ---------- C16: this agent's own UDP association / ICMP session next to tunnels it relays ----------
+
+// The agent is the ingress of its own tunnel (toward next hop c16Peer(4), local
+// stream id x) and at the same time relays tunnel e1 of other agents. Stream
+// ids are per connection, so x may numerically equal an id of e1. A frame of e1
+// (from e1's own leg) is forwarded on e1's other leg and leaves the agent's own
+// tunnel alone.
+func c16OwnVsRelayed(proto int, tag string) {
+	a := c16Agent()
+	t := c16DgramTable(a, proto)
+	e1 := &relayEntry{UpstreamPeer: c16Peer(verif_choose(2)), UpstreamID: verif_nondet_u64(), DownstreamPeer: c16Peer(2 + verif_choose(2)), DownstreamID: verif_nondet_u64()}
+	t.Insert(e1)
+	x := verif_nondet_u64()
+	next := c16Peer(4)
+	var udpDest *udpDestAssociation
+	var udpIngress *udpIngressAssociation
+	var icmpIngress *icmpIngressAssociation
+	if proto == 1 {
+		udpDest = &udpDestAssociation{StreamID: x, NextHop: next, OriginKey: "o", PendingOpen: make(chan struct{})}
+		udpIngress = &udpIngressAssociation{destAssocs: map[string]*udpDestAssociation{"o": udpDest}}
+		a.udpIngressByLocalStream = map[uint64]*udpDestLookup{x: {Ingress: udpIngress, Dest: udpDest}}
+	} else {
+		icmpIngress = &icmpIngressAssociation{StreamID: x, NextHop: next, PendingOpen: make(chan struct{})}
+		a.icmpIngressByStream = map[uint64]*icmpIngressAssociation{x: icmpIngress}
+	}
+	c16Log = nil
+	kind := c16DgramKinds[verif_choose(len(c16DgramKinds))]
+	fromUp := verif_nondet_bool()
+	if kind == 3 || kind == 4 {
+		fromUp = false
+	}
+	payload := verif_nondet_bytes(2)
+	if fromUp {
+		c16DeliverDgram(a, proto, kind, e1.UpstreamPeer, e1.UpstreamID, payload)
+	} else {
+		c16DeliverDgram(a, proto, kind, e1.DownstreamPeer, e1.DownstreamID, payload)
+	}
+	verif_reach(tag + "/own-vs-relayed")
+	ok := len(c16Log) == 1
+	if ok {
+		s := c16Log[0]
+		if fromUp {
+			ok = s.to == e1.DownstreamPeer && s.f.StreamID == e1.DownstreamID
+		} else {
+			ok = s.to == e1.UpstreamPeer && s.f.StreamID == e1.UpstreamID
+		}
+	}
+	verif_assert(ok, tag+"/relayed-frame-not-forwarded-next-to-an-own-tunnel-with-the-same-stream-id")
+	if proto == 1 {
+		l := a.udpIngressByLocalStream[x]
+		verif_assert(l != nil && l.Dest == udpDest && udpIngress.destAssocs["o"] == udpDest, tag+"/relayed-frame-closes-the-agents-own-tunnel")
+		opened := false
+		select {
+		case <-udpDest.PendingOpen:
+			opened = true
+		default:
+		}
+		verif_assert(!opened && udpDest.SessionKey == nil, tag+"/relayed-frame-answers-the-agents-own-open")
+	} else {
+		verif_assert(a.icmpIngressByStream[x] == icmpIngress, tag+"/relayed-frame-closes-the-agents-own-tunnel")
+		opened := false
+		select {
+		case <-icmpIngress.PendingOpen:
+			opened = true
+		default:
+		}
+		verif_assert(!opened && icmpIngress.SessionKey == nil, tag+"/relayed-frame-answers-the-agents-own-open")
+	}
+}
+
+func harnessC16OwnVsRelayedUDP()  { c16OwnVsRelayed(1, "C16/udp") }
+func harnessC16OwnVsRelayedICMP() { c16OwnVsRelayed(2, "C16/icmp") }
